@@ -106,6 +106,9 @@ func runGroup(t *testing.T, rep *ev.Report, preserve bool, pr peer, proto string
 						path := fmt.Sprintf("/r%d", n)
 						before := st.Backend.Count()
 						rq := bubble.Req{Path: path, Host: host, Lines: lines}
+						if proto == "h2" && n%2 == 0 {
+							rq.Scheme = "http" // legal on a TLS connection (e.g. from an intermediary); the connection is still TLS
+						}
 						if proto == "h1" {
 							cl.SendH1(rq)
 						} else {
